@@ -132,7 +132,7 @@ class BaseSDESolver(metaclass=better_abc.ABCMeta):
                         error_estimate = adaptive_stepping.compute_error(next_y_full, next_y, self.rtol, self.atol)
                         step_size, prev_error_ratio = adaptive_stepping.update_step_size(
                             error_estimate=error_estimate,
-                            prev_step_size=step_size,
+                            prev_step_size=next_t - curr_t,  # The step actually tried (it may have been clipped to ts[-1]).
                             prev_error_ratio=prev_error_ratio
                         )
 
